@@ -481,9 +481,11 @@ class Ctx:
         self.pins = []
         self.quiet = 0
         self.max_parts = 4
+        self.max_parts_branch = 8
         self.observers = []    # callables (event, **kw)
         self.path_mode_fns = None   # optional predicate(inst) -> bool: try path mode
         self.no_inline = None       # optional predicate(inst) -> bool: never analyse body (havoc)
+        self.partition_fns = None   # predicate(inst) -> bool: trace partitioning on boolean branches (merged at loop heads)
         self.summary_fns = None     # predicate(inst) -> bool: memoise on pointer-to-sequence arguments too
         self.assume_fns = None      # predicate(inst)-> str|None: obligations inside are 'assumed' with that reason
         from . import models
